@@ -26,7 +26,8 @@ type c09Max struct {
 	Retry    int `json:"retry"`
 	Pending  int `json:"pending"`       // dtlcp: reassembly buffers
 	PendingB int `json:"pending_bytes"` // dtlcp: their total size
-	Depth    int `json:"depth"`         // call-stack depth at a transport read
+	Depth    int `json:"depth"`         // call-stack depth at a transport read (dtlcp: frames of readDatagram)
+	Frames   int `json:"frames"`        // dtlcp: frames of readRecordOrCCS on the stack at a transport read
 	PostHand int `json:"post_hand"`     // handshake bytes held at a transport read after completion
 	Reads    int `json:"reads"`         // transport reads
 	EmptyRun int `json:"empty_run"`     // longest run of consecutive transport reads that returned no byte and no error
@@ -43,23 +44,26 @@ func stackDepth() int {
 	return runtime.Callers(0, pcs[:])
 }
 
-// readDatagramFrames counts the frames of dtlcp.(*Conn).readDatagram on the calling goroutine's
-// stack: the depth of its recursion.
-func readDatagramFrames() int {
+// dtlcpFrames counts, on the calling goroutine's stack, the frames of dtlcp.(*Conn).readDatagram (a
+// recursion before fix 593205a) and of dtlcp.(*Conn).readRecordOrCCS (re-entered through
+// retryReadRecord for every warning alert).
+func dtlcpFrames() (rd, rr int) {
 	var pcs [8192]uintptr
 	n := runtime.Callers(0, pcs[:])
 	fr := runtime.CallersFrames(pcs[:n])
-	k := 0
 	for {
 		f, more := fr.Next()
 		if strings.HasSuffix(f.Function, "dtlcp.(*Conn).readDatagram") {
-			k++
+			rd++
+		}
+		if strings.HasSuffix(f.Function, "dtlcp.(*Conn).readRecordOrCCS") {
+			rr++
 		}
 		if !more {
 			break
 		}
 	}
-	return k
+	return rd, rr
 }
 
 // ---- stream
@@ -168,11 +172,12 @@ func (c *c09PC) sample() {
 
 func (c *c09PC) ReadFrom(p []byte) (int, net.Addr, error) {
 	c.sample()
-	d := readDatagramFrames()
+	d, rr := dtlcpFrames()
 	m := c.M
 	m.mu.Lock()
 	m.Reads++
 	mx(&m.Depth, d)
+	mx(&m.Frames, rr)
 	c.lastDepth = d
 	m.mu.Unlock()
 	n, a, err := c.PacketConn.ReadFrom(p)
